@@ -33,9 +33,12 @@ Edges == { <<"priv_bytes", "priv_obj", "PrivateKey.from_bytes">>,
 
 VARIABLES rep, val, hist
 vars == <<rep, val, hist>>
-Init == rep = "priv_bytes" /\ val = [seed |-> "s", kind |-> "priv"] /\ hist = <<>>
+(* the same 32 bytes may be used as a private seed or (if they happen to encode a point) as a public key: both *)
+(* families of paths are walked over the SAME byte string, in one process                                      *)
+Init == /\ rep \in {"priv_bytes", "pub_bytes"} /\ val = [seed |-> "s", kind |-> KindOf(rep)]
+        /\ hist = <<IF rep = "priv_bytes" THEN "start:private" ELSE "start:public">>
 Convert(e) ==
-  /\ rep = e[1] /\ Len(hist) < Depth
+  /\ rep = e[1] /\ Len(hist) < Depth + 1
   /\ rep' = e[2]
   /\ val' = [seed |-> (IF MUTANT = "files_swap" /\ e[3] = "keyfiles_to_keys.public" THEN "other" ELSE val.seed),
              kind |-> (IF MUTANT = "pub_is_priv" /\ e[3] = "public_key" THEN "priv" ELSE KindOf(e[2]))]
@@ -44,5 +47,5 @@ Next == \E e \in Edges : Convert(e)
 Spec == Init /\ [][Next]_vars
 
 FunctionOfSeed == val.seed = "s" /\ val.kind = KindOf(rep)
-EmitPath == Len(hist) < Depth \/ PrintT("@@" \o ToJson(hist))
+EmitPath == Len(hist) < Depth + 1 \/ PrintT("@@" \o ToJson(hist))
 =============================================================================
